@@ -266,8 +266,9 @@ def _search(ctx, C, p):
     import re
     pat = p["pat"]
     v = [ctx.int("v%d" % i, 0, 2) for i in range(6)]
-    c = C.Container(a=v[0], n=C.Container(b=v[1], kxy=v[2], l=C.ListContainer([C.Container(ax=v[3]), C.Container(b=v[4], _p=v[5])])), b=0, _p=1, x=C.ListContainer([]))
-    flat = [("a", v[0]), ("b", v[1]), ("kxy", v[2]), ("ax", v[3]), ("b", v[4]), ("_p", v[5]), ("b", 0), ("_p", 1)]
+    c = C.Container(a=v[0], n=C.Container(b=v[1], kxy=v[2], l=C.ListContainer([C.Container(ax=v[3]), C.Container(b=v[4], _p=v[5])])), b=0, _p=1, x=C.ListContainer([]),
+                    grid=C.ListContainer([C.ListContainer([C.Container(b=v[0], ax=7)]), C.ListContainer([]), C.ListContainer([C.ListContainer([C.Container(kxy=v[1])])])]))
+    flat = [("a", v[0]), ("b", v[1]), ("kxy", v[2]), ("ax", v[3]), ("b", v[4]), ("_p", v[5]), ("b", 0), ("_p", 1), ("b", v[0]), ("ax", 7), ("kxy", v[1])]
     rx = re.compile(pat)
     want = [val for k, val in flat if rx.match(k)]
     got_all = c.search_all(pat)
